@@ -26,8 +26,10 @@ LISTS = [
     [('uint', 'a'), ('se', None), ('bits', None), ('uint', 'b')],
     [('bits', None), ('ue', None)],
     [('ue', None), ('se', None)],
+    [('uie', None), ('bits', None), ('uint', 'a')],
+    [('uint', 'a'), ('sie', None), ('uie', None)],
 ]
-VARIABLE = ('ue', 'se')
+VARIABLE = ('ue', 'se', 'uie', 'sie')
 
 
 def _mk_list(S, interp, L):
@@ -101,11 +103,20 @@ def read_dtype_list_spec(C, self, dtypes, pos):
             from .golomb import readue_core
             if C.lsb0:
                 C.throw('ReadError')
-            c, used = readue_core(C, win(p, V.n), 0)      # (the code reads the codeword from the tail bits[pos:])
+            T = win(p, V.n)                               # (the code reads the codeword from the tail bits[pos:])
+            if name in ('uie', 'sie'):
+                from .golomb import readuie_core
+                c, used = readuie_core(C, T, 0)
+                if name == 'sie' and not sym.truth(sym.eq(c, 0)):
+                    if sym.truth(used >= T.n):
+                        C.throw('ReadError')
+                    c, used = (-c if sym.truth(T.bit(used)) else c), used + 1
+            else:
+                c, used = readue_core(C, T, 0)
+                if name == 'se':
+                    m = (c + 1) // 2
+                    c = m if sym.truth(sym.eq(c % 2, 1)) else -m
             p = p + used
-            if name == 'se':
-                m = (c + 1) // 2
-                c = m if sym.truth(sym.eq(c % 2, 1)) else -m
             vals.append(c)
             continue
         if L is None:
